@@ -38,3 +38,17 @@ def same_kind(a: Py, b: Py) -> B:
     return implies(is_expr(a), is_expr(b)) and \
         implies(isinstance(a, ast.Lambda),
                 isinstance(b, ast.Lambda) and len(b.args.args) == len(a.args.args))
+
+
+def same_class(a: Py, b: Py) -> B:
+    """b is a node of the very class of a (what NodeTransformer.generic_visit returns: the node it
+    was given); stated for the classes the contracts need."""
+    return implies(isinstance(a, ast.UnaryOp), isinstance(b, ast.UnaryOp)) and \
+        implies(isinstance(a, ast.BinOp), isinstance(b, ast.BinOp)) and \
+        implies(isinstance(a, ast.BoolOp), isinstance(b, ast.BoolOp)) and \
+        implies(isinstance(a, ast.Compare), isinstance(b, ast.Compare)) and \
+        implies(isinstance(a, ast.IfExp), isinstance(b, ast.IfExp)) and \
+        implies(isinstance(a, ast.Subscript), isinstance(b, ast.Subscript)) and \
+        implies(isinstance(a, ast.Attribute), isinstance(b, ast.Attribute)) and \
+        implies(isinstance(a, ast.Dict), isinstance(b, ast.Dict)) and \
+        implies(isinstance(a, ast.Call), isinstance(b, ast.Call))
